@@ -57,7 +57,7 @@ Verdict(r, mode) ==
       enKey(x) == Key3(x[1], OwnerEn(envs, x[1], x[2]), "en", x[2])
       ok(key) == Has(o.same, key) /\ o.same[key] = "same"
       failed(key) == Has(o.same, key) /\ o.same[key] \notin {"same", "different"}      \* typeof() raised
-      cycle == "realize:by-value-aggregate-of-function-type-under-construction"
+      cycle == "realize:aggregate-needed-by-value-while-under-construction"
       tdClass(x) == IF mode = "ool" /\ failed(tdKey(x)) /\ TouchesCycle(envs[x[1]], envs[x[1]].td[x[2]]) THEN cycle
                     ELSE IF gen /\ HasEnum(envs[x[1]].td[x[2]])
                        /\ ModelId(Ms, x[1], envs[x[1]].td[x[2]]) # IdealId(envs, x[1], envs[x[1]].td[x[2]])
